@@ -10,7 +10,7 @@ from engine.oracle.tokens import fmarks, frag_tokens, node_tokens, splits_surrog
 from harness import common
 
 PROPERTY = "C09"
-BOUNDS = ("catalogue documents (<= 25 tokens, depth <= 4, incl. astral text, non-inclusive marks, leaf and "
+BOUNDS = ("two templates whose text is 1..3 solver-chosen characters of {a, U+00E9, U+1F600}; catalogue documents (<= 25 tokens, depth <= 4, incl. astral text, non-inclusive marks, leaf and "
           "empty nodes); pos in [-3, size+3] where out-of-range must raise ValueError (the error message formats the "
           "position, which would realise an unbounded integer value by value); pos2 and range ends in range; depth "
           "argument unbounded (checked inside [-depth, depth+1])")
@@ -306,6 +306,38 @@ def _find_index(pos, up):
     return rt.fin(got == want, rt.first_diff(got, want))
 
 
+TEXT_ALPH = ["a", "\u00e9", "\U0001F600"]
+TEXT_TEMPLATES = ['doc(p("@", em("@b")), p("c"))', 'doc(h1("x@"), ul(li(p(a()("@"), "y"))))']
+
+
+def ob_textvar(k: int, c0: int, c1: int, c2: int, a: int, b: int) -> bool:
+    """post: _"""
+    return rt.run(_textvar, k, c0, c1, c2, a, b)
+
+
+def _textvar(k, c0, c1, c2, a, b):
+    """The solver also chooses the text: 1..3 characters from an alphabet with a 2-byte and an astral character are
+    substituted into a template, then the range accessors and the position accessors are checked as above."""
+    global C
+    n = len(TEXT_ALPH)
+    if not (1 <= k <= 3 and 0 <= c0 < n and 0 <= c1 < n and 0 <= c2 < n):
+        return rt.SKIP
+    if (k < 3 and c2 != 0) or (k < 2 and c1 != 0):
+        return rt.SKIP
+    if k != P["k"] or c0 != P["c0"]:
+        return rt.SKIP
+    k, c0, c1, c2 = rt.pick(k, 1, 3), rt.pick(c0, 0, n - 1), rt.pick(c1, 0, n - 1), rt.pick(c2, 0, n - 1)
+    txt = "".join(TEXT_ALPH[c] for c in (c0, c1, c2)[:k])
+    with rt.untraced():
+        C = common.load({"schema": "list", "expr": TEXT_TEMPLATES[P["tt"]].replace("@", txt)})
+    if not (0 <= a <= b <= C.size):
+        return rt.SKIP
+    ok = _between(a, b)
+    if ok is True and a == b:
+        ok = _around(a)
+    return ok
+
+
 QUICK = {"list": [7, 5, 3], "basic": [2], "iso": [3], "table": [0], "mx6": [1], "ni": [0, 1]}
 
 
@@ -329,4 +361,9 @@ def obligations(tier, seed):
             q = dict(p, alo=lo, ahi=min(size + 1, lo + step))
             obs.append({"name": "pair/%s/%d-%d" % (tag, q["alo"], q["ahi"]), "fn": "ob_pair", "P": q, "timeout": T})
             obs.append({"name": "between/%s/%d-%d" % (tag, q["alo"], q["ahi"]), "fn": "ob_between", "P": q, "timeout": T})
+    for tt in range(len(TEXT_TEMPLATES)):
+        for k in ((1, 2) if tier == "quick" else (1, 2, 3)):
+            for c0 in range(len(TEXT_ALPH)):
+                obs.append({"name": "textvar/%d/k=%d/c0=%d" % (tt, k, c0), "fn": "ob_textvar",
+                            "P": {"schema": "list", "doc": 0, "tt": tt, "k": k, "c0": c0}, "timeout": T * 2})
     return obs
